@@ -206,6 +206,13 @@ mut("c12-resume-count-forgets-pubcomp", ["C12", "C08"], CORE,
     "            let incomplete = self.pid_puback.len() + self.pid_pubrec.len();",
     note="exchanges awaiting PUBCOMP are not counted against Receive Maximum on resume")
 
+mut("c14-total-size-boundary-128", ["C14"], CORE,
+    "    let remaining_length_bytes = if remaining_length < 128 {", "    let remaining_length_bytes = if remaining_length <= 128 {",
+    note="received packet size computed with a one-byte length field for Remaining Length 128")
+mut("c06-offline-flag-mid-session", ["C08", "C06"], CORE,
+    "        if self.offline_publish && self.status == ConnectionStatus::Disconnected {", "        if self.offline_publish {",
+    note="set_offline_publish(true) on a live non-persistent connection marks it as storing")
+
 ROOT = "/tmp/mutants-scratch"
 REPO = f"{ROOT}/repo"
 MC = f"{ROOT}/mc"
